@@ -132,6 +132,16 @@ fn run(plan: &Plan, ctx: &mut Ctx) -> R {
     };
     let sem: &'static SemanticSddBuilder<'static, U64_LARGEST> =
         Box::leak(Box::new(SemanticSddBuilder::new(ws::build_vtree(n, plan.get("vt3_shape"), plan.get("vt_seed") as u64 ^ 0xAA, plan.get("ord3") as u64))));
+    // fault-free twin of the hash-identified SDD builder (C16: its apply cache must never change a result)
+    let sem_twin: Option<&'static SemanticSddBuilder<'static, U64_LARGEST>> = if ctx.wants("C16") {
+        let was = rsdd::verif::set_faults_enabled(false);
+        let t = Box::leak(Box::new(SemanticSddBuilder::new(ws::build_vtree(n, plan.get("vt3_shape"), plan.get("vt_seed") as u64 ^ 0xAA, plan.get("ord3") as u64))));
+        rsdd::verif::set_faults_enabled(was);
+        Some(&*t)
+    } else {
+        None
+    };
+    let mut p_tw: Vec<SP> = Vec::new();
     let td_std: &'static StandardDecisionNNFBuilder<'static> = Box::leak(Box::new(StandardDecisionNNFBuilder::new(order_of(plan.get("ord3") as u64))));
     let td_sem: &'static SemanticDecisionNNFBuilder<'static, U64_LARGEST> = Box::leak(Box::new(SemanticDecisionNNFBuilder::new(order_of(plan.get("ord4") as u64))));
 
@@ -223,6 +233,16 @@ fn run(plan: &Plan, ctx: &mut Ctx) -> R {
                 let r3 = bottom_up!(sdd_c, p_sc);
                 let r4 = bottom_up!(sdd_u, p_su);
                 let r5 = bottom_up!(sem, p_se);
+                if let Some(tw) = sem_twin {
+                    let was = rsdd::verif::set_faults_enabled(false);
+                    let q = bottom_up!(tw, p_tw);
+                    rsdd::verif::set_faults_enabled(was);
+                    p_tw.push(q);
+                    let (ta, tb) = (ws::walk(r5, &mut BTreeMap::new()), ws::walk(q, &mut BTreeMap::new()));
+                    ctx.check("C16", "semantic-sdd-apply-cache-changes-result", ta == tb, || {
+                        format!("SemanticSddBuilder `{}`: with its apply cache forgetting the result denotes {}, the fault-free twin's result denotes {}", KN[kind as usize], tt::show(ta), tt::show(tb))
+                    })?;
+                }
                 p_b1.push(r1);
                 p_b2.push(r2);
                 p_sc.push(r3);
@@ -354,7 +374,7 @@ impl World for SemHashWorld {
         "semhash"
     }
     fn properties(&self) -> &'static [&'static str] {
-        &["C11"]
+        &["C11", "C16"]
     }
 
     fn generate(&self, run_seed: u64, target: &str, thorough: bool) -> Plan {
@@ -381,6 +401,9 @@ impl World for SemHashWorld {
             if c.below(3) == 0 {
                 rates[site as usize] = *c.pick(&[4u16, 32, 128]);
             }
+        }
+        if target == "C16" && rates[SemAppCacheForget as usize] == 0 {
+            rates[SemAppCacheForget as usize] = *c.pick(&[8u16, 32, 128]);
         }
         let mut ops = Vec::new();
         for _ in 0..(2 + c.below(9)) {
